@@ -914,6 +914,17 @@ func step(ws []string) string {
 		}
 		return "ok @@ err=" + errName(err)
 	case "stop":
+		// C01: a peer that keeps sending is never left with data that is not handed to OnTraffic - when the loop is
+		// idle in epoll_wait (the generator polls three times before it stops) everything sent on an open connection
+		// has been read and offered to the handler
+		if st.blocked && !st.exited {
+			for _, cid := range st.order {
+				ci := st.conns[cid]
+				if ci.opened == 1 && ci.closedCB == 0 && !ci.fdClosed && ci.fatal == "" && ci.delivered < len(ci.sent) {
+					fail(fmt.Sprintf("C01: the loop is idle in epoll_wait while %d of the %d bytes the peer sent on %s were never read and offered to the handler", len(ci.sent)-ci.delivered, len(ci.sent), cid))
+				}
+			}
+		}
 		// C18: a connection that met a non-retryable I/O failure must be closed by now, with one OnClose(err != nil)
 		for _, cid := range st.order {
 			ci := st.conns[cid]
